@@ -1,6 +1,172 @@
+(* Driver/Proofs.v -- library (fs, out_set, failed_lookup) and loop invariants for check_oracle. *)
 From Coq Require Import List Arith Bool Lia.
 Import ListNotations.
-From Heph Require Import Driver.Model.
+From Heph Require Import Driver.Model Driver.Spec.
 
 Lemma finish_dead s : alive s = false -> finish s = s.
 Proof. intros H. unfold finish. rewrite H. reflexivity. Qed.
+
+(* ---------------- dir_eqb / has / put / del ---------------- *)
+
+Lemma dir_eqb_eq a b : dir_eqb a b = true <-> a = b.
+Proof.
+  destruct a, b; simpl; split; intros H; try discriminate;
+    try (apply Nat.eqb_eq in H; subst; reflexivity);
+    try (inversion H; subst; apply Nat.eqb_refl).
+Qed.
+
+Lemma dir_eqb_refl a : dir_eqb a a = true.
+Proof. apply dir_eqb_eq. reflexivity. Qed.
+
+Lemma dir_eqb_neq a b : dir_eqb a b = false <-> a <> b.
+Proof.
+  split.
+  - intros H E. apply dir_eqb_eq in E. congruence.
+  - intros H. destruct (dir_eqb a b) eqn:E; [apply dir_eqb_eq in E; contradiction | reflexivity].
+Qed.
+
+Lemma dir_eqb_sym a b : dir_eqb a b = dir_eqb b a.
+Proof.
+  destruct (dir_eqb a b) eqn:E.
+  - apply dir_eqb_eq in E. subst. symmetry. apply dir_eqb_refl.
+  - symmetry. apply dir_eqb_neq. apply dir_eqb_neq in E. congruence.
+Qed.
+
+Lemma has_In f d : has f d = true <-> In d f.
+Proof.
+  unfold has. rewrite existsb_exists. split.
+  - intros [x [Hx E]]. apply dir_eqb_eq in E. subst. exact Hx.
+  - intros H. exists d. split; [exact H | apply dir_eqb_refl].
+Qed.
+
+Lemma has_false_In f d : has f d = false <-> ~ In d f.
+Proof.
+  rewrite <- has_In. destruct (has f d); split; intros H; congruence.
+Qed.
+
+Lemma has_app f g d : has (f ++ g) d = has f d || has g d.
+Proof. unfold has. apply existsb_app. Qed.
+
+Lemma has_put_same f d : has (put f d) d = true.
+Proof.
+  unfold put. destruct (has f d) eqn:E; [exact E|].
+  rewrite has_app. simpl. rewrite dir_eqb_refl. rewrite orb_true_r. reflexivity.
+Qed.
+
+Lemma has_put_other f d d' : d' <> d -> has (put f d) d' = has f d'.
+Proof.
+  intros N. unfold put. destruct (has f d) eqn:E; [reflexivity|].
+  rewrite has_app. simpl. apply dir_eqb_neq in N. rewrite N. rewrite !orb_false_r. reflexivity.
+Qed.
+
+Lemma has_put f d d' : has (put f d) d' = dir_eqb d' d || has f d'.
+Proof.
+  destruct (dir_eqb d' d) eqn:E.
+  - apply dir_eqb_eq in E. subst. rewrite has_put_same. reflexivity.
+  - apply dir_eqb_neq in E. rewrite has_put_other by exact E. reflexivity.
+Qed.
+
+Lemma has_del f d d' : has (del f d) d' = negb (dir_eqb d' d) && has f d'.
+Proof.
+  unfold del. induction f as [|x f IH]; simpl.
+  - rewrite andb_false_r. reflexivity.
+  - destruct (dir_eqb x d) eqn:Exd; simpl.
+    + rewrite IH. apply dir_eqb_eq in Exd. subst x.
+      destruct (dir_eqb d' d) eqn:E; simpl; reflexivity.
+    + rewrite IH. destruct (dir_eqb d' x) eqn:E; simpl; [|reflexivity].
+      apply dir_eqb_eq in E. subst x. rewrite Exd. reflexivity.
+Qed.
+
+Lemma has_del_same f d : has (del f d) d = false.
+Proof. rewrite has_del. rewrite dir_eqb_refl. reflexivity. Qed.
+
+Lemma has_del_other f d d' : d' <> d -> has (del f d) d' = has f d'.
+Proof. intros N. rewrite has_del. apply dir_eqb_neq in N. rewrite N. reflexivity. Qed.
+
+(* ---------------- out_set ---------------- *)
+
+Lemma out_set_keys o p e q : In q (map fst (out_set o p e)) <-> In q (map fst o) \/ q = p.
+Proof.
+  induction o as [|[r e'] o IH]; simpl.
+  - intuition.
+  - destruct (Nat.eqb r p) eqn:E; simpl.
+    + apply Nat.eqb_eq in E. subst. intuition.
+    + rewrite IH. intuition.
+Qed.
+
+Lemma out_set_In_key o p e : In p (map fst (out_set o p e)).
+Proof. apply out_set_keys. right. reflexivity. Qed.
+
+Lemma out_set_nodup o p e : NoDup (map fst o) -> NoDup (map fst (out_set o p e)).
+Proof.
+  induction o as [|[r e'] o IH]; simpl; intros H.
+  - constructor; [intros []|constructor].
+  - inversion H as [|? ? Hn Hd]; subst.
+    destruct (Nat.eqb r p) eqn:E; simpl.
+    + constructor; assumption.
+    + constructor; [|apply IH; exact Hd].
+      intros Hin. apply out_set_keys in Hin. destruct Hin as [Hin|Hin]; [contradiction|].
+      subst. rewrite Nat.eqb_refl in E. discriminate.
+Qed.
+
+(* value stored: with distinct keys, the entries of out_set are the old entries for other
+   keys plus (p, e) *)
+Lemma out_set_In o p e q x :
+  NoDup (map fst o) ->
+  (In (q, x) (out_set o p e) <-> (q <> p /\ In (q, x) o) \/ (q = p /\ x = e)).
+Proof.
+  induction o as [|[r e'] o IH]; simpl; intros H.
+  - split.
+    + intros [E|[]]. inversion E; subst. right. split; reflexivity.
+    + intros [[_ []]|[E1 E2]]. subst. left. reflexivity.
+  - inversion H as [|? ? Hn Hd]; subst.
+    destruct (Nat.eqb r p) eqn:E; simpl.
+    + apply Nat.eqb_eq in E. subst r. split.
+      * intros [E|Hin].
+        -- inversion E; subst. right. split; reflexivity.
+        -- left. split; [|right; exact Hin].
+           intros ->. apply Hn. apply (in_map fst) in Hin. exact Hin.
+      * intros [[N [E|Hin]]|[E1 E2]].
+        -- inversion E; subst. contradiction.
+        -- right. exact Hin.
+        -- subst. left. reflexivity.
+    + apply Nat.eqb_neq in E. rewrite (IH Hd). split.
+      * intros [E'|[[N Hin]|[E1 E2]]].
+        -- inversion E'; subst. left. split; [exact E|left; reflexivity].
+        -- left. split; [exact N|right; exact Hin].
+        -- right. split; assumption.
+      * intros [[N [E'|Hin]]|[E1 E2]].
+        -- left. exact E'.
+        -- right. left. split; assumption.
+        -- right. right. split; assumption.
+Qed.
+
+Lemma out_set_length_le o p e : length (out_set o p e) <= S (length o).
+Proof.
+  induction o as [|[r e'] o IH]; simpl; [lia|].
+  destruct (Nat.eqb r p); simpl; lia.
+Qed.
+
+Lemma out_set_length_new o p e : ~ In p (map fst o) -> length (out_set o p e) = S (length o).
+Proof.
+  induction o as [|[r e'] o IH]; simpl; intros H; [reflexivity|].
+  destruct (Nat.eqb r p) eqn:E.
+  - apply Nat.eqb_eq in E. subst. exfalso. apply H. left. reflexivity.
+  - simpl. rewrite IH; [reflexivity|]. intros Hin. apply H. right. exact Hin.
+Qed.
+
+(* ---------------- failed_lookup ---------------- *)
+
+Lemma failed_lookup_dec failed file :
+  {msgs | failed_lookup failed file = Some msgs} + {failed_lookup failed file = None}.
+Proof. destruct (failed_lookup failed file) as [l|]; [left; exists l; reflexivity | right; reflexivity]. Qed.
+
+Lemma has_error_some failed file msgs : failed_lookup failed file = Some msgs -> has_error failed file.
+Proof. unfold has_error. intros H. rewrite H. discriminate. Qed.
+
+Lemma not_has_error_none failed file : ~ has_error failed file <-> failed_lookup failed file = None.
+Proof.
+  unfold has_error. split.
+  - intros H. destruct (failed_lookup failed file); [exfalso; apply H; discriminate | reflexivity].
+  - intros H N. contradiction.
+Qed.
